@@ -480,14 +480,31 @@ func (f *file) ReadDir(n int) ([]hackpadfs.DirEntry, error) {
 	}
 
 	var entries []hackpadfs.DirEntry
-	for _, name := range dirNames[start:end] {
-		entry, err := newDirEntry(f.fs, f.path, name)
-		if err != nil {
-			return nil, err
+	for {
+		for _, name := range dirNames[start:end] {
+			entry, err := newDirEntry(f.fs, f.path, name)
+			if errors.Is(err, hackpadfs.ErrNotExist) {
+				// removed since the names were listed: like os.ReadDir, leave it out instead of failing the whole listing
+				continue
+			}
+			if err != nil {
+				return nil, err
+			}
+			entries = append(entries, entry)
 		}
-		entries = append(entries, entry)
+		f.offset = end
+		if n <= 0 || len(entries) > 0 || end == total {
+			break
+		}
+		// every entry of this page has vanished: continue with the next page rather than return an empty one
+		start = end
+		if end = total; int64(n) < total-start {
+			end = start + int64(n)
+		}
 	}
-	f.offset = end
+	if n > 0 && len(entries) == 0 {
+		return nil, io.EOF
+	}
 	return entries, nil
 }
 
